@@ -9,7 +9,7 @@ package main
 import "verif/exech/driver"
 
 func main() {
-	q := []driver.ProbeConfig{driver.CfgDefault}
+	q := []driver.ProbeConfig{driver.CfgDefault, driver.CfgFollowSchema}
 	t := []driver.ProbeConfig{driver.CfgDefault, driver.CfgFollowSchema, driver.CfgWorker2}
 	sq := []driver.ProbeConfig{driver.CfgDefault}
 	st := []driver.ProbeConfig{driver.CfgDefault, driver.CfgWorker2}
